@@ -108,11 +108,33 @@ def check(ctx, tier, seed, t0):
         if got is None or got != want:
             failures.append({'key': {'format': fmt, 'alias': old}, 'cmd': 'probe value of %s in %s' % (old, fmts[fmt].src), 'impl': str(got),
                              'expected': '%s = %s' % (new, want), 'what': 'legacy name %s has value %s, %s is %s' % (old, got, new, want)})
-    # packed structs
+    # packed structs of the deprecated API: sizes and member offsets as measured by the compiled probes of this run, against the
+    # layout they must overlay (recorded from the tree on which C12_layout was proved: tools/props/c12_layout_baseline.json).
+    # A difference is the concrete witness when C12_layout breaks.
+    import os as _os, json as _json
     n_struct = 0
+    try:
+        baseline = _json.load(open(_os.path.join(_os.path.dirname(_os.path.abspath(__file__)), 'c12_layout_baseline.json')))
+    except Exception:
+        baseline = {}
+    seen = set()
     for u in ctx['model']['units']:
         for tag, st in u.get('legacy_structs', {}).items():
             n_struct += 1
+            b = baseline.get(tag)
+            if b is None or (tag, u['src']) in seen:
+                continue
+            seen.add((tag, u['src']))
+            diffs = []
+            if st['sizeof'] != b['sizeof']:
+                diffs.append('sizeof %s (must be %s)' % (st['sizeof'], b['sizeof']))
+            want = {mname: off for mname, off in b['members']}
+            for mname, off in st['members']:
+                if mname in want and want[mname] != off:
+                    diffs.append('member %s at offset %s (must be %s)' % (mname, off, want[mname]))
+            if diffs and not any(f.get('key', {}).get('struct') == tag for f in failures):
+                failures.append({'key': {'struct': tag}, 'cmd': 'probe layout of struct %s in %s' % (tag, u['src']), 'impl': '; '.join(diffs), 'expected': 'sizeof %s, members %s' % (b['sizeof'], b['members']),
+                                 'what': 'deprecated struct %s no longer overlays the current header: %s' % (tag, '; '.join(diffs))})
     if tie and not failures:
         proof['broken'].append({'file': 'correspondence C12 (model of the deprecated wrappers vs implementation)', 'line': 0,
                                 'error': '%d cases differ, e.g. %s -> impl %s, model %s' % (len(tie), tie[0]['legacy'][:200], tie[0]['impl'][:80], tie[0]['model'][:80])})
